@@ -435,6 +435,24 @@ func runC13(c bson.D, x *Ctx) (err error) {
 		if _, e := coll.UpdateMany(ctx, bson.D{}, bson.D{{Key: "$unset", Value: bson.D{{Key: "zz", Value: ""}}}}); e != nil {
 			return fmt.Errorf("harness: %v", e)
 		}
+		// ... FindOneAndReplace (the replacement keeps every field, so the
+		// ordering stays what it was)
+		var before bson.D
+		repl := append(append(bson.D{}, R[0][1:]...), bson.E{Key: "zz", Value: int32(1)})
+		rerr := coll.FindOneAndReplace(ctx, filter, repl, options.FindOneAndReplace().SetSort(sortDoc)).Decode(&before)
+		if rerr != nil {
+			return fmt.Errorf("FindOneAndReplace failed: %v", rerr)
+		}
+		if !bytesEq(before, R[0]) {
+			return fmt.Errorf("sorted FindOneAndReplace acted on id %v, first of the ordering is %d (%v)", before[0].Value, idsOf(R)[0], idsOf(R))
+		}
+		marked, _ = findDocs(coll, bson.D{{Key: "zz", Value: int32(1)}})
+		if len(marked) != 1 || idsOf(marked)[0] != idsOf(R)[0] {
+			return fmt.Errorf("sorted FindOneAndReplace replaced ids %v, want only %d", idsOf(marked), idsOf(R)[0])
+		}
+		if _, e := coll.ReplaceOne(ctx, bson.D{{Key: "_id", Value: R[0][0].Value}}, R[0][1:]); e != nil {
+			return fmt.Errorf("harness: %v", e)
+		}
 		var del bson.D
 		derr := coll.FindOneAndDelete(ctx, filter, options.FindOneAndDelete().SetSort(sortDoc)).Decode(&del)
 		if derr != nil {
